@@ -319,6 +319,7 @@ class Check:
         Offending cases are excised and the shard re-validated so that every violating case is reported.
         Returns list of violation dicts."""
         base = os.path.splitext(os.path.basename(trace_tla))[0]
+        max_iter = int(os.environ.get("VERIF_MAXITER", max_iter))   # 1: stop at the first violation per shard (seed re-verification)
         lib = os.path.join(SPECS, "lib") + os.pathsep + os.path.dirname(trace_tla)
         work = []
         for j in jobs:
